@@ -58,6 +58,14 @@ SEEDS = {
     "C16e": ("C16", "group_by_genes also skips genes whose own mean is NaN", "genemetrics with segments + skip_low and a gene whose bins inside the segment are all null-coverage", "caught", None),
     "C18e": ("C18", "_resolve_sample treats the integer selector 0 as 'not given'", "normal_id=0 (or sample_id=0 against PEDIGREE)", "caught", None),
     "C19e": ("C19", "on_array applies the length-1 shortcut before stripping NaN", "a vector with exactly one finite value among NaNs (gapper_scale, q_n)", "caught", None),
+    "C01f": ("C01", "absolute_dataframe fills the purity-adjusted copies through a fresh-index Series", "clonal call with purity < 1 on an array with non-default row labels", "caught", None),
+    "C03f": ("C03", "transfer_fields pairs the k-th chromosome of the bins with the k-th chromosome of the segments", "HMM method, >= 2 chromosomes, one that is not the last loses every bin", "caught", None),
+    "C05f": ("C05", "center_by_window shuffles ties with a module-level RandomState instead of reseeding per call", "corrections on, tied covariates, a cohort of >= 2 samples (each sample is corrected with another tie order)", "missed", "C05's corrections-on tier now draws non-flat profiles and requires depth-only cohorts to keep spread ~ 0 (C10's history check also catches this change)"),
+    "C08f": ("C08", "sorter_chrom splits names with a regex that stops at the first inner digit", "two contigs of one family (chrUn_KI270302v1 / chrUn_KI270304v1, GL000191.1 / GL000192.1) with interleaving starts", "caught", None),
+    "C11f": ("C11", "two cooperating edits: kept bins renumbered only when some were dropped; HMM states attached with a fresh index", "hmm-germline on an array with non-default row labels and no filtered bin", "caught", None),
+    "C13f": ("C13", "the all-N-line shortcut closes the open run only `if run_start:`", "a sequence whose first run starts at 0, ends at a line break and is followed by an all-N line", "caught", None),
+    "C15f": ("C15", "PAR masks built as a fresh-index Series and combined by label", "center_all with skip_low and a PAR genome on a table with null-coverage bins (the filtered table has label gaps)", "caught", None),
+    "C17f": ("C17", "bintest assigns the residuals back by position instead of by label", "segments covering every bin whose chromosomes come in another order than the bin table's", "missed", "C17 now lists the segment table's chromosomes in another order than the bin table on a third of the cases"),
 }
 
 
